@@ -1,7 +1,7 @@
 (* Table-level recogniser and its soundness: a table all of whose rows are accepted computes, row by
    row and for ALL operand values, what DocSpec documents (on the defined bits). *)
 From Coq Require Import ZArith Lia Bool List String.
-From MirV Require Import Mir.DocSpec Mir.CExpr C02.WFacts C02.RowCheck C02.RowProofs C02.IntRows C02.FloatRows C02.OvfRows.
+From MirV Require Import Mir.DocSpec Mir.CExpr C02.WFacts C02.RowCheck C02.RowProofs C02.IntRows C02.FloatRows C02.OvfRows C02.OvfFlags.
 Import ListNotations.
 Local Open Scope Z_scope.
 
@@ -31,7 +31,7 @@ Definition row_ok (op : opcode) (s : cstmt) : bool :=
       | IB_none, c => float_branch_ok c e
       | c, _ => int_branch_ok c e
       end
-  | SOvf T e sf uf => ovf_value_ok op T e
+  | SOvf T e sf uf => ovf_ok op T e sf uf
   | _ => false
   end.
 
@@ -42,7 +42,9 @@ Definition row_sound (op : opcode) (s : cstmt) : Prop :=
   /\ (forall args b, doc_branch op args = Some b -> stmt_branch (env_of args) s = Some b)
   /\ (forall sf uf b, doc_ovf_branch op sf uf = Some b -> stmt_branch (flag_env sf uf) s = Some b)
   /\ (forall args r sf uf, doc_ovf op args = Some (r, sf, uf) ->
-        exists r', stmt_value (env_of args) s = Some r' /\ eqv op r' r = true).
+        exists r' fs fu, stmt_ovf (env_of args) s = Some (r', fs, fu) /\ eqv op r' r = true
+          /\ (fst (ovf_defined op) = true -> fs = Some sf)
+          /\ (snd (ovf_defined op) = true -> fu = Some uf)).
 
 (* ---- class bookkeeping over the opcode enumeration *)
 Lemma doc_sem_split op args : op <> LDMOV ->
@@ -164,14 +166,16 @@ Proof.
   - (* SOvf *)
     cbn [row_ok] in Hok.
     assert (Hcl : exists o w, ovf_class op = Some (o, w)).
-    { unfold ovf_value_ok, ovf_leaves in Hok. destruct (ovf_class op) as [[o w]|]; [eauto | discriminate]. }
+    { unfold ovf_ok, ovf_leaves in Hok. destruct (ovf_class op) as [[o w]|]; [eauto | discriminate]. }
     destruct Hcl as (o & w & Hc).
     split; [|split; [|split]].
     + intros args d Hd. destruct (ovf_not_value op o w args Hc) as (Hv' & _). congruence.
     + intros args b Hd. destruct (ovf_not_value op o w args Hc) as (_ & Hb' & _). congruence.
     + intros sf0 uf0 b Hd. destruct (ovf_not_value op o w [] Hc) as (_ & _ & Hob'). rewrite Hob' in Hd. discriminate.
-    + intros args r sf0 uf0 Hd. destruct (ovf_value_sound op T e Hok args r sf0 uf0 Hd) as (r' & Hv & Hl).
-      exists r'. split; [exact Hv|]. rewrite Hc in Hl. apply (eqv_ovf op o w); assumption.
+    + intros args r sf0 uf0 Hd.
+      destruct (ovf_ok_sound op T e sf uf Hok args r sf0 uf0 Hd) as (r' & fs & fu & Hv & Hl & Hs & Hu).
+      exists r', fs, fu. split; [exact Hv|]. split; [|split; assumption].
+      rewrite Hc in Hl. apply (eqv_ovf op o w); assumption.
 Qed.
 
 (* ---- table level *)
@@ -247,7 +251,10 @@ Proof.
 Qed.
 
 Lemma all_opcodes_complete op : In op all_opcodes.
-Proof. destruct op; cbn; tauto. Qed.
+Proof.
+  assert (H : existsb (opcode_eqb op) all_opcodes = true) by (destruct op; vm_compute; reflexivity).
+  apply existsb_exists in H. destruct H as (x & Hin & He). apply opcode_eqb_eq in He. subst. exact Hin.
+Qed.
 
 Theorem table_ok_total tbl : table_ok tbl = true ->
   forall op, needs_row op = true \/ ld_opcode op = true -> exists s, In (op, s) tbl.
